@@ -2,6 +2,7 @@ import Emerge.Proofs.Follow
 import Emerge.Proofs.Follow2
 import Emerge.Proofs.Subset
 import Emerge.Proofs.FollowDenote
+import Emerge.Proofs.Spined
 import Emerge.Inst.Regex
 /-
   C10 — the direct (followpos) pattern-to-DFA construction.
@@ -126,6 +127,19 @@ theorem C10_dfa_documented (p : Pat) (hs : spined p = true) (d : DFA)
   constructor
   · intro h; exact this.mp ⟨h, hw⟩
   · intro h; exact (this.mpr h).1
+
+/-- whatever the mapper model returns for a pattern text is made of item lists (every grammar, every class table) -/
+theorem C10_parse_spined (G : Rules) (top : String) (T : ClassTable) (s : List Rune) (p : Pat)
+    (h : parsePat G top T s = .ok p) : spined p = true := parsePat_spined G top T s p h
+
+/-- **End to end for the direct route**: for every pattern text the (regenerated) pattern grammar accepts, the automaton
+    the model of `ast.Parse` + `ToDFA` builds accepts a string without NUL iff the pattern matches it under the documented
+    meaning. (The only run-time hypothesis left is that the loop finished within its fuel, `2^positions + 1` states.) -/
+theorem C10_direct_route (s : List Rune) (p : Pat)
+    (hp : parsePat Gen.Regex.rules Gen.Regex.top Gen.Regex.runeClasses s = .ok p) (d : DFA)
+    (hd : toDFA? (build Gen.Regex.runeClasses p) = some d) (w : List Rune) (hw : NoNul w) :
+    d.accepts (build Gen.Regex.runeClasses p) w = true ↔ p.denote Gen.Regex.runeClasses w :=
+  C10_dfa_documented p (parsePat_spined _ _ _ s p hp) d hd w hw
 
 /-- Non-vacuity: `ab*` and `\xEEEE|a` (a pattern that itself contains the end-marker character): the loop terminates,
     and the automaton accepts and rejects as the theorem says. -/
